@@ -1,0 +1,275 @@
+//go:build verif
+
+package verifspec
+
+// Executable reading of the ghost API, used ONLY by replay tests (/verif/govc writes a test that
+// calls a contract harness on the inputs of a solver model, see DESIGN.md §3.3).  The verifier never
+// executes these bodies: it intercepts the functions by name.  Outside a replay (replay == nil) the
+// ghost functions panic as before.
+//
+// What can be executed: Eq/Same (deep, observational on fp.Option / fp.Try), EqT (values + recorded
+// callback traces, or both panic), Panics, Begin/End/Calls/NoCalls/TraceLen.  Everything else
+// (quantifiers, Old, heap predicates, iterator sources, concurrency) panics with Inconclusive: the replay
+// then reports that the input could not be replayed, never a false confirmation.
+
+import (
+	"fmt"
+	"reflect"
+	"strings"
+	"unsafe"
+)
+
+// Inconclusive is the panic value of a ghost function that has no executable reading.
+type Inconclusive struct{ What string }
+
+type event struct {
+	fn   string
+	args string
+}
+
+type runtime struct {
+	witness   []any // values for the bound variables of the clause's universal quantifier (from the solver model)
+	trace     []event
+	beginMark int
+	endMark   int
+	ended     bool
+}
+
+var replay *runtime
+
+// EnableReplay switches the ghost API to its executable reading (replay tests only).
+func EnableReplay() { replay = &runtime{} }
+
+func rt() *runtime {
+	if replay == nil {
+		panic("verifspec: ghost function")
+	}
+	return replay
+}
+
+// noReplay: ghost operations without an executable reading (scheduler model, havoc, rely/guarantee set-up).
+func noReplay(what string) {
+	if replay != nil {
+		panic(Inconclusive{what + " has no executable reading"})
+	}
+}
+
+// Record is called by the table-driven callbacks a replay test builds from the solver model.
+func Record(fn string, args ...any) {
+	if replay != nil {
+		replay.trace = append(replay.trace, event{fn, fmt.Sprintf("%#v", args)})
+	}
+}
+
+func (r *runtime) begin() { r.beginMark = len(r.trace); r.ended = false }
+func (r *runtime) end()   { r.endMark = len(r.trace); r.ended = true }
+func (r *runtime) calls() int {
+	if r.ended {
+		return r.endMark - r.beginMark
+	}
+	return len(r.trace) - r.beginMark
+}
+
+func (r *runtime) panics(f func() any) (p bool) {
+	defer func() {
+		if e := recover(); e != nil {
+			if _, inc := e.(Inconclusive); inc {
+				panic(e)
+			}
+			p = true
+		}
+	}()
+	f()
+	return false
+}
+
+func (r *runtime) run(f func() any) (v any, panicked bool, tr []event) {
+	mark := len(r.trace)
+	defer func() {
+		if e := recover(); e != nil {
+			if _, inc := e.(Inconclusive); inc {
+				panic(e)
+			}
+			panicked = true
+		}
+		tr = append([]event(nil), r.trace[mark:]...)
+		r.trace = r.trace[:mark]
+	}()
+	v = f()
+	return
+}
+
+func (r *runtime) eqT(a, b func() any) bool {
+	va, pa, ta := r.run(a)
+	vb, pb, tb := r.run(b)
+	if len(ta) != len(tb) {
+		return false
+	}
+	for i := range ta {
+		if ta[i] != tb[i] {
+			return false
+		}
+	}
+	if pa || pb {
+		return pa && pb
+	}
+	return r.eq(va, vb)
+}
+
+func (r *runtime) eq(a, b any) bool {
+	return deepEq(reflect.ValueOf(a), reflect.ValueOf(b), 0)
+}
+
+func addressable(v reflect.Value) reflect.Value {
+	if v.CanAddr() {
+		return v
+	}
+	c := reflect.New(v.Type()).Elem()
+	c.Set(v)
+	return c
+}
+
+func field(v reflect.Value, i int) reflect.Value {
+	f := v.Field(i)
+	return reflect.NewAt(f.Type(), unsafe.Pointer(f.UnsafeAddr())).Elem()
+}
+
+func deepEq(a, b reflect.Value, depth int) bool {
+	if depth > 50 {
+		panic(Inconclusive{"Eq: value too deep"})
+	}
+	if !a.IsValid() || !b.IsValid() {
+		return a.IsValid() == b.IsValid()
+	}
+	if a.Type() != b.Type() {
+		return false
+	}
+	switch a.Kind() {
+	case reflect.Interface:
+		if a.IsNil() || b.IsNil() {
+			return a.IsNil() == b.IsNil()
+		}
+		return deepEq(a.Elem(), b.Elem(), depth+1)
+	case reflect.Func:
+		if a.IsNil() || b.IsNil() {
+			return a.IsNil() == b.IsNil()
+		}
+		if a.Pointer() == b.Pointer() {
+			// same code; closures over different variables cannot be told apart: be conservative
+			panic(Inconclusive{"Eq on function values"})
+		}
+		panic(Inconclusive{"Eq on function values"})
+	case reflect.Pointer, reflect.Chan, reflect.UnsafePointer:
+		return a.Pointer() == b.Pointer()
+	case reflect.Map:
+		panic(Inconclusive{"Eq on maps"})
+	case reflect.Slice:
+		if a.Len() != b.Len() {
+			return false
+		}
+		for i := 0; i < a.Len(); i++ {
+			if !deepEq(a.Index(i), b.Index(i), depth+1) {
+				return false
+			}
+		}
+		return true
+	case reflect.Array:
+		for i := 0; i < a.Len(); i++ {
+			if !deepEq(a.Index(i), b.Index(i), depth+1) {
+				return false
+			}
+		}
+		return true
+	case reflect.Struct:
+		a, b = addressable(a), addressable(b)
+		name := a.Type().String()
+		switch {
+		case strings.HasPrefix(name, "fp.Option["):
+			pa, pb := field(a, 0).Bool(), field(b, 0).Bool()
+			if pa != pb {
+				return false
+			}
+			return !pa || deepEq(field(a, 1), field(b, 1), depth+1)
+		case strings.HasPrefix(name, "fp.Try["):
+			sa, sb := field(a, 0).Bool(), field(b, 0).Bool()
+			if sa != sb {
+				return false
+			}
+			if sa {
+				return deepEq(field(a, 1), field(b, 1), depth+1)
+			}
+			return deepEq(field(a, 2), field(b, 2), depth+1)
+		}
+		for i := 0; i < a.NumField(); i++ {
+			if !deepEq(field(a, i), field(b, i), depth+1) {
+				return false
+			}
+		}
+		return true
+	case reflect.Bool:
+		return a.Bool() == b.Bool()
+	case reflect.Int, reflect.Int8, reflect.Int16, reflect.Int32, reflect.Int64:
+		return a.Int() == b.Int()
+	case reflect.Uint, reflect.Uint8, reflect.Uint16, reflect.Uint32, reflect.Uint64, reflect.Uintptr:
+		return a.Uint() == b.Uint()
+	case reflect.String:
+		return a.String() == b.String()
+	case reflect.Float32, reflect.Float64:
+		return a.Float() == b.Float()
+	}
+	panic(Inconclusive{"Eq on " + a.Kind().String()})
+}
+
+type replayError struct{ k int }
+
+func (e *replayError) Error() string { return fmt.Sprintf("replay-error-%d", e.k) }
+
+var replayErrors = map[int]*replayError{}
+
+// ReplayError returns the k-th distinct error value of a replayed model (the same value for the same k).
+func ReplayError(k int) error {
+	if e, ok := replayErrors[k]; ok {
+		return e
+	}
+	e := &replayError{k}
+	replayErrors[k] = e
+	return e
+}
+
+// ReplayEq is the argument test of the table-driven callbacks of a replay.
+func ReplayEq(a, b any) bool { return deepEq(reflect.ValueOf(a), reflect.ValueOf(b), 0) }
+
+// ReplayWitness registers the values at which the (first) universally quantified clause is evaluated.
+func ReplayWitness(vals ...any) {
+	if replay != nil {
+		replay.witness = vals
+	}
+}
+
+// forall: a universal clause is evaluated at the witness of the solver model only.  If the body is false
+// there, the clause is false; if it is true there, nothing is known and the replay ends inconclusive.
+func (r *runtime) forall(f any) bool {
+	if r.witness == nil {
+		panic(Inconclusive{"Forall without a witness"})
+	}
+	fv := reflect.ValueOf(f)
+	if fv.Kind() != reflect.Func || fv.Type().NumIn() != len(r.witness) || fv.Type().NumOut() != 1 {
+		panic(Inconclusive{"Forall: witness does not fit"})
+	}
+	in := make([]reflect.Value, len(r.witness))
+	for i, w := range r.witness {
+		v := reflect.ValueOf(w)
+		if !v.IsValid() {
+			v = reflect.Zero(fv.Type().In(i))
+		}
+		if !v.Type().AssignableTo(fv.Type().In(i)) {
+			panic(Inconclusive{"Forall: witness type"})
+		}
+		in[i] = v
+	}
+	r.witness = nil
+	if fv.Call(in)[0].Bool() {
+		panic(Inconclusive{"Forall: the body holds at the model's witness"})
+	}
+	return false
+}
